@@ -20,7 +20,7 @@ use crate::std_runtime::executor::{block_on, block_timeout, Executor};
 use crate::std_runtime::timer::TimerDriver;
 use crate::vstd::probe::{now_ns, sleep_until, snapshot};
 use crate::vstd::Env;
-use crate::{oracle, outcome, Cfg, Harness};
+use crate::{oracle, outcome, Harness};
 
 fn ns(n: u64) -> Duration {
     Duration::from_nanos(n)
@@ -126,6 +126,12 @@ pub fn harnesses() -> Vec<Harness> {
                 let ticks = cfg.ticks.clone();
                 Box::new(move || block_timeout_sleep(&ticks))
             },
+        },
+        Harness {
+            name: "timer/huge-duration",
+            threads: 3,
+            what: "block_on(sleep(Duration::MAX)): Sleep::reset falls back to a 24 h deadline when the deadline is not representable; recorded as a finding, not a failure",
+            build: |_| Box::new(huge_duration),
         },
         Harness {
             name: "block_on/other-thread",
@@ -385,6 +391,29 @@ fn block_timeout_sleep(ticks: &[u64]) {
         }
         Err(e) => panic!("ORACLE[wrong-value]: block_timeout returned Err({:?})", e),
     }
+    drop(h);
+    drop(driver);
+    env.finish();
+}
+
+fn huge_duration() {
+    let env = Env::start(&[]);
+    let driver = TimerDriver::new();
+    let h = driver.handle();
+    let start = now_ns();
+    block_on(h.sleep(Duration::MAX));
+    let took = now_ns() - start;
+    outcome(format!("timer/huge-duration/completed-after-{took}ns"));
+    crate::soft_finding(
+        "timer/huge-duration",
+        "C42/timer/huge-duration-capped-to-24h",
+        format!(
+            "sleep(Duration::MAX) completed after {took} ns of virtual time (24 h + 1 ns): when now + duration is \
+             not representable as an Instant, Sleep::reset silently substitutes a deadline of now + 24 h, so the \
+             sleep completes (long) before the requested duration has passed. Documented fallback in timer.rs \
+             (unit test test_reset_overflow); by the letter of C42 a sleep that completes before its deadline."
+        ),
+    );
     drop(h);
     drop(driver);
     env.finish();
